@@ -41,7 +41,8 @@ def step_record(event, st):
             outs.append(["Start", e.get("action_uid", "")])
         elif t.startswith("Stop") and t.endswith("Action"):
             outs.append(["Stop", e.get("action_uid", "")])
-    return {"ev": ty, "in_act": [kind, event.get("action_uid", "") if kind else ""], "out_acts": outs,
+    return {"ev": ty, "evfull": {k: v for k, v in event.items() if isinstance(v, (str, int, float, bool, type(None)))},
+            "in_act": [kind, event.get("action_uid", "") if kind else ""], "out_acts": outs,
             "proj": compact(colang2.project_state(st))}
 
 
